@@ -198,17 +198,27 @@ def find_feasible_path(body, starts, goals, removed_blocks=(), removed_edges=())
     for s_ in starts:
         if isinstance(s_, tuple):
             # an edge: what is known at the end of its source block, refined by the edge
-            a, tb = s_
-            if tb in removed_blocks or (a, tb) in removed_edges:
+            a, tb = s_[0], s_[1]
+            if tb in removed_blocks:
                 continue
             base = dict(ctx.IN[a] or {}) if ctx.IN[a] is not None else {}
-            for nb, st in ctx.step(a, base):
-                if nb == tb:
-                    st = ctx.project(st)
-                    k = (tb, _key(st))
-                    if k not in prev:
-                        prev[k] = None
-                        dq.append((tb, st, k))
+            cands = [st for nb, st in ctx.step(a, base) if nb == tb]
+            if len(s_) > 2:
+                # (switch block, target, value): the arm of that value (two values may share a target)
+                blk = ctx.blocks[a]
+                st0 = thread.flow_statements(blk, dict(base), ctx.untracked)
+                l, subj = thread._switch_subject(blk)
+                if subj is not None and subj not in ctx.untracked:
+                    st0[subj] = ("variant", None, s_[2], None, None)
+                if l is not None and l not in ctx.untracked:
+                    st0[l] = ("const", s_[2])
+                cands = [st0]
+            for st in cands:
+                st = ctx.project(st)
+                k = (tb, _key(st))
+                if k not in prev:
+                    prev[k] = None
+                    dq.append((tb, st, k))
             continue
         if s_ in removed_blocks or s_ is None:
             continue
